@@ -1,6 +1,7 @@
 package checks
 
 import (
+	"errors"
 	"bytes"
 	crand "crypto/rand"
 	"crypto/sha256"
@@ -147,7 +148,20 @@ func runC16(r *core.Run) {
 		}
 		ls, rem, err := lease_set2.ReadLeaseSet2(s.Bytes)
 		if err != nil || len(rem) != 0 {
-			return // below LEASESET2_MIN_SIZE (known C02 finding): nothing to encrypt
+			// the parser refuses this encoding (too small for LEASESET2_MIN_SIZE - a known C02 finding - or, in a
+			// changed tree, a new guard): a LeaseSet2 VALUE with the same fields can still come from the signing
+			// constructor, and "encrypting any LeaseSet2 ... and decrypting ... returns identical bytes" speaks
+			// about values, whichever way they were obtained
+			built, berr := adapt.LeaseSet2(s.Value.(refmodel.LeaseSet2), s.Signer)
+			var am adapt.ErrArgumentMutated
+			if built == nil || (berr != nil && !errors.As(berr, &am)) {
+				return
+			}
+			bb, e2 := built.Bytes()
+			if e2 != nil || len(bb) < 499 {
+				return // (MIN_SIZE: the decrypting side parses the plaintext and refuses it - the known finding again)
+			}
+			ls, s.Bytes = *built, bb
 		}
 		for kp := uint64(1); kp <= 2; kp++ {
 			pub, priv := adapt.X25519Pair(kp)
